@@ -124,6 +124,47 @@ Proof.
 Qed.
 Print Assumptions c09_value_consistency.
 
+(* EI is never negative -- PARTIAL.  Full statement wanted:
+     forall Phi, cdf_spec Phi -> (Phi -> 0 at -oo) -> forall ..., ei_head ... <= 0
+   (and "EI = E[max(0, best - jitter - Y)], Y ~ N(mean, std^2)", a Gaussian integral, which
+   is NOT attempted).  Proved here: the head value is <= 0 (EI >= 0) for every input, from
+   three analytic facts about Phi, all true of the real Gaussian cdf and stated as
+   hypotheses: Phi' = gauss_pdf, Phi >= 0, and liminf_{u -> -oo} (u Phi(u) + pdf(u)) >= 0.
+   The last one is what a proof of Mills' bound Phi(u) <= pdf(u)/|u| would discharge. *)
+Theorem c09_ei_nonneg_partial :
+  forall Phi, cdf_spec Phi -> (forall u, 0 <= Phi u) ->
+    (forall eps, 0 < eps -> exists M, forall u, u < M -> - eps < u * Phi u + gauss_pdf u) ->
+    (forall u, 0 <= u * Phi u + gauss_pdf u) /\
+    (forall (C : Cfg R) (means : list R) (std : R) (bests : list R),
+       0 < c_std_min C -> ei_head (RO Phi) C means std bests <= 0).
+Proof.
+  intros Phi H Hnn Hlim. split.
+  - exact (ei_integrand_nonneg Phi H Hnn Hlim).
+  - exact (ei_head_nonpos Phi H Hnn Hlim).
+Qed.
+Print Assumptions c09_ei_nonneg_partial.
+
+(* non-vacuity: a cdf with the assumed derivative exists (the integral of the density), and
+   the side conditions of the head theorems hold for a concrete two-fantasy input *)
+Example c09_example_cdf : exists Phi, cdf_spec Phi.
+Proof. exact cdf_spec_sat. Qed.
+
+Example c09_example_hyps :
+  let C := mkCfg R (1/100) (1/10^10) (1/10^12) (1/10^12) 1 (1/2) in
+  let means := [0; 1] in let bests := [1/2; 1/2] in let costs := [2] in
+  0 < c_std_min C /\ length bests = length means /\ means <> [] /\ costs <> [] /\
+  bcompat (length means) (length costs) /\ c_std_min C < 1 /\ 0 < c_min_cost C /\
+  List.Forall (fun c => c_min_cost C < c) costs /\ 1 + c_min_std_constr C <> 0.
+Proof.
+  cbn. assert (0 < / 10 ^ 10) by (apply Rinv_0_lt_compat; lra).
+  assert (0 < / 10 ^ 12) by (apply Rinv_0_lt_compat; lra).
+  assert (/ 10 ^ 10 < 1) by (apply Rmult_lt_reg_r with (10 ^ 10); [lra | rewrite Rinv_l; lra]).
+  assert (/ 10 ^ 12 < 2) by (apply Rmult_lt_reg_r with (10 ^ 12); [lra | rewrite Rinv_l; lra]).
+  repeat split; try lra; try discriminate.
+  - right; right; reflexivity.
+  - constructor; [lra | constructor].
+Qed.
+
 (* ------------------------------------------------------------------------ *)
 (* hand-written backward passes of custom_op.py (MathComp, any field F with  *)
 (* 2 <> 0; no real-number axioms)                                            *)
@@ -167,3 +208,7 @@ Theorem c09_addjitter_vjp_adjoint :
     (inner G (dX + ds%:M) = inner (addjitter_vjp G).1 dX + (addjitter_vjp G).2 * ds)%R.
 Proof. intros. split; [exact: addjitter_differential | exact: addjitter_vjp_adjoint]. Qed.
 Print Assumptions c09_addjitter_vjp_adjoint.
+
+Example c09_example_chol :
+  (2%:R : rat)%R != 0%R /\ is_trig_mx (1%:M : 'M[rat]_3)%R /\ ((1%:M : 'M[rat]_3)%R \in unitmx).
+Proof. split; [by [] | split; [exact: is_diag_mx_is_trig (scalar_mx_is_diag _ _) | exact: unitmx1]]. Qed.
